@@ -119,12 +119,12 @@ impl<'a> Ev<'a> {
                         });
                         (v, json!({"name":arg,"explicit":false}))
                     };
-                    let v = if size(&v) > 900 { json!({"k":"big"}) } else { v };
+                    let v = if size(&v) > 6000 { json!({"k":"big"}) } else { v };
                     parts.push(json!({"hole":v,"spec":spec,"named":name}));
                 }
             }
         }
-        let named_bindings: Map<String, Value> = named.iter().map(|(k, v)| (k.clone(), if size(v) > 300 { json!({"k":"big"}) } else { v.clone() })).collect();
+        let named_bindings: Map<String, Value> = named.iter().map(|(k, v)| (k.clone(), if size(v) > 3000 { json!({"k":"big"}) } else { v.clone() })).collect();
         json!({"k":"fmt","parts":parts,"line":line,"ty":"String","named_bindings":named_bindings})
     }
 
